@@ -115,6 +115,8 @@ def resolve_amount(spec, sec, cost):
         return cost(a[1]) + a[2]
     if kind == "value_frac":
         return -sec.value * a[1]
+    if kind == "near_close":  # minus the current value, off by a sliver of one unit: not a close-out, the cost still equals the amount
+        return -sec.value + a[1] * unit
     raise ValueError(kind)
 
 
@@ -265,11 +267,13 @@ def alloc_spec(draw):
         if not integer and draw(st.booleans()):
             mag = mag + draw(st.floats(0.01, 0.99))
         pos0 = mag if pk == "long" else -mag
-    ak = draw(st.sampled_from(["units", "units", "units", "float", "close", "cost", "value_frac", "zero", "tiny", "huge", "decimal_units", "decimal_units"]))
+    ak = draw(st.sampled_from(["units", "units", "units", "float", "close", "cost", "value_frac", "zero", "tiny", "huge", "decimal_units", "decimal_units", "near_close"]))
     sign = draw(st.sampled_from([1, -1]))
     if ak == "units":
         n = draw(st.one_of(st.integers(0, 50), st.floats(0.0, 3.0), st.floats(0.0, 1e4), st.sampled_from([0.5, 0.999, 1.0, 1.001, 1.5, 2.0, 10.0, 1e3])))
         amount = ["units", sign * n]
+    elif ak == "near_close":
+        amount = ["near_close", sign * draw(st.sampled_from([1e-7, 5e-7, 1e-8, 1e-6, 1e-4, 0.01]))] if pos0 != 0 else ["units", sign * 1.5]
     elif ak == "decimal_units":
         amount = ["decimal_units", sign * draw(st.one_of(st.integers(1, 200), st.sampled_from([100, 1000, 10, 50, 250])))]
     elif ak == "float":
